@@ -142,6 +142,10 @@ def oracle(program, mods):
                 iso.add_fp(io.BytesIO(b'p' * 5000), 5000, '/ZZ9P%d.;1' % k, **kw)
                 if mod['i'] % 2:
                     iso.force_consistency()
+                if mod['i'] % 3 == 0:
+                    # ... also when the edited state has meanwhile been mastered into *another* file: the opened one keeps its layout
+                    iso.write_fp(io.BytesIO())
+                    run.c17.add('after-edit-and-write-elsewhere')
                 pending = True
             except Exception:  # noqa
                 pass
